@@ -27,4 +27,30 @@ func LoadDatabaseFromStream returns (db, err)
   ensures @fails-on-malformed [C09] err == nil ==> (forall i int :: {RdLine(rd, i)} 0 <= i && i < RdN(rd) ==> !Malformed(rd, i, cc))
   ensures @fails-on-unreadable [C10] err == nil ==> !RdFailed(rd)
   ensures @quotes-first [C09] forall j int :: {cbErr[j]} old(cbLen) <= j && j < cbLen && cbErr[j] != nil ==> j == cbLen - 1 && err == cbErr[j] && (forall i2 int :: {RdLine(rd, i2)} 0 <= i2 && i2 < cbLineNo[j] - 1 ==> !Malformed(rd, i2, cc))
+
+// The callback of WalkNodesInStream: stops at the first error (parse error, heading that is not a date, filter,
+// merge or reporter error) and hands it back; it never stops the walk without an error, so a successful walk
+// has seen every record of the log.
+func WalkNodesInStream$1
+  props C08 C09 C10
+  refines parser.StopOnErr
+  modifies *
+  dyncall 1 filter.LogNodeFilter
+  captured r != nil
+  captured filter == nil || *filter != nil
+
+// WalkNodesInStream fails iff the log has a malformed line, cannot be read completely, or a record is rejected
+// by the callback above; the error of a malformed line is that of the first one
+func WalkNodesInStream returns (err)
+  props C08 C09 C10
+  calluse ParseStreamCallback#1 stoponerr
+  requires @reporter r != nil && (filter == nil || *filter != nil)
+  modifies *
+  modifies ghost(cbLen, cbErr, cbNode, cbStop, cbRet, cbLineNo, cbLine, cbHeader, cbElems, cbNElems, scRd, scPos, privLo, evOf)
+  let rd := payload(logStream)
+  let cc := pc.CommentChar
+  ensures @fails-on-malformed [C09] err == nil ==> (forall i int :: {RdLine(rd, i)} 0 <= i && i < RdN(rd) ==> !Malformed(rd, i, cc))
+  ensures @fails-on-unreadable [C10] err == nil ==> !RdFailed(rd)
+  ensures @quotes-first [C09] forall j int :: {cbErr[j]} old(cbLen) <= j && j < cbLen && cbErr[j] != nil ==> j == cbLen - 1 && err == cbErr[j] && (forall i2 int :: {RdLine(rd, i2)} 0 <= i2 && i2 < cbLineNo[j] - 1 ==> !Malformed(rd, i2, cc))
+  ensures @error-or-all [C10] err == nil ==> (forall j int :: {cbStop[j]} old(cbLen) <= j && j < cbLen ==> !cbStop[j] && cbErr[j] == nil)
 @*/
